@@ -35,6 +35,7 @@ def cases(tier, seed):
     groups = [e1.family_members(1)[0]]
     if tier == "thorough":
         groups.append(e1.family_members(2, {k: family.FEATURES[k] for k in ["filt", "e", "cc", "h", "cons"]})[0])
+    groups.append([(family.normalise(dict(family.BASE, **d)), 2) for d in ({"filt": "dp"}, {"filt": "dp", "T": 4}, {"filt": "dp", "e": 1})])
     for members in groups:
         for fv, dev in members:
             i = e1.fv_id(fv)
